@@ -21,6 +21,10 @@ type JApi struct {
 func NewJapi(filepath string, oo ...core.Option) (JApi, *jerr.JApiError) {
 	f, err := readPanicFree(filepath)
 	if err != nil {
+		if f == nil {
+			// the file could not be read at all: locate the error in an empty file with that name
+			f = fs.NewFile(filepath, []byte{})
+		}
 		return JApi{}, jerr.NewJApiError(err.Error(), f, 0)
 	}
 	return NewJApiFromFile(f, oo...)
